@@ -19,6 +19,9 @@ def histories(rng, tier):
             if n >= 5 and st > 8 and rng.random() < 0.8:
                 continue
             hs.append((0, [("with", n, st), ("dump",), ("probs",), ("sample", 0), ("polar",), ("vreglen",)]))
+            if st in (0, 1, (1 << n) - 1 if n else 0):
+                # the same observables of a multi-threaded register ("any threading model")
+                hs.append((0, [("with", n, st), ("threads", 2), ("dump",), ("probs",), ("sample", 3), ("polar",), ("vreglen",)]))
     hs.append((0, [("new", 0), ("dump",), ("probs",), ("polar",), ("vreglen",)]))
     # tensor chains
     for _ in range(60 if tier == "quick" else 2500):
